@@ -15,7 +15,7 @@ func init() {
 		ID:          "C04",
 		Explanation: "Decided: (collect) the instance collector never prunes its walk, handles identifiers (the key of types.Info.Instances), seeds and prunes generic declarations only after recording them, iterates to exhaustion, and runs over all sources before any analysis; (identity) instance equality and hashing consult every field of Instance, ids are insertion indices, and the declaring and the referencing side index the JS table through the same instName; (emit) function and type declarations are emitted once per known instance with a per-instance FuncInfo and resolver; (subst) package compiler reads types/selections/instances from types.Info only inside the wrappers that apply the type-parameter substitution, plus two reviewed exceptions; (dce) instance declarations carry their type arguments in the DCE name; (failstop) an unsubstituted type parameter reaching typeName/initArgs aborts compilation instead of being emitted. NOT decided: correctness of subst.Subster; that the collected set equals the run-time reachable set for every program; behaviour of instantiated code.",
 		Assumptions: []string{"go/types records every instantiation in types.Info.Instances keyed by identifier"},
-		Rules:       []RuleFunc{ruleC04Collect, ruleC04Identity, ruleC04Emit, ruleC04Subst, ruleC04Failstop, ruleTotal("C04.exh", 3, "typeparams.NewResolver", "subst.typ", "initArgs"), ruleC04Nest, ruleC04SubstAttrs, ruleC02Sources, ruleC04SharedTable, ruleCommentHoles, ruleC04SelectionIndex, ruleC04LitInfo, ruleC04DeferredSetup},
+		Rules:       []RuleFunc{ruleC04Collect, ruleC04Identity, ruleC04Emit, ruleC04Subst, ruleC04Failstop, ruleTotal("C04.exh", 3, "typeparams.NewResolver", "subst.typ", "initArgs"), ruleC04Nest, ruleC04SubstAttrs, ruleC02Sources, ruleC04SharedTable, ruleCommentHoles, ruleC04SelectionIndex, ruleC04LitInfo, ruleC04DeferredSetup, ruleC17SessionArchives},
 	})
 }
 
